@@ -1342,3 +1342,21 @@ CONTRACTS[CI + 'CliffordGate.compile#any'] = dict(
     ensures=['self.forward_map is not None', 'self.backward_map is not None', 'same_loc(result, self)'],
     modifies=[], modifies_scalar=['self.forward_map', 'self.backward_map'], returns='=self',
 )
+
+# ------------------------------------------------------------------ C17: copy of ANY gate - the same parts are present, equal, and nothing is shared
+def _copy_map(m):
+    return ('implies(self.%s is not None, result.%s is not None and rows(result.%s.gs) == rows(self.%s.gs) and cols(result.%s.gs) == cols(self.%s.gs) and '
+            'forall(j, 0, rows(self.%s.gs), forall(c, 0, cols(self.%s.gs), result.%s.gs[j][c] == self.%s.gs[j][c])) and eq1(result.%s.ps, self.%s.ps) and '
+            'fresh_loc(result.%s.gs) and fresh_loc(result.%s.ps))' % ((m,) * 14))
+
+
+CONTRACTS[CI + 'CliffordGate.copy#any'] = dict(
+    params=[('self', GATE_ANY)], requires=['self.n == len(self.qubits)'],
+    ensures=['result.n == self.n', 'len(result.qubits) == len(self.qubits)', 'forall(k, 0, len(self.qubits), result.qubits[k] == self.qubits[k])',
+             'implies(self.generator is None, result.generator is None)', 'implies(self.forward_map is None, result.forward_map is None)',
+             'implies(self.backward_map is None, result.backward_map is None)',
+             'implies(self.generator is not None, result.generator is not None and eq1(result.generator.g, self.generator.g) and '
+             'result.generator.p == self.generator.p and fresh_loc(result.generator.g))',
+             _copy_map('forward_map'), _copy_map('backward_map')],
+    modifies=[], returns=GATE_ANY,
+)
